@@ -845,7 +845,12 @@ impl Property for C17 {
                 // faults on the calls the program really makes (rehearsed on a copy of the disk)
                 plan = vec![PlanEntry { idx: y.next_u64(), kind: PlanKind::Measured(0) }];
             }
-            let stale: Vec<String> = OUT_FILES.iter().filter(|_| d.chance(0.35)).map(|(_, n)| n.to_string()).collect();
+            let mut stale: Vec<String> = OUT_FILES.iter().filter(|_| d.chance(0.35)).map(|(_, n)| n.to_string()).collect();
+            for (_, n) in OUT_FILES.iter() {
+                if d.chance(0.12) {
+                    stale.push(worldp::stale_sibling(&mut d, n));
+                }
+            }
             let mut c = Rng::for_stream(seed, stream::CRASH);
             // crash an earlier incarnation somewhere inside its output phase (the last 9 tracked calls)
             let crash_first = if c.chance(0.25) && shape.len() >= 9 { Some(shape.len() as u64 - 9 + c.below(9)) } else { None };
